@@ -19,12 +19,21 @@ modelled; fitted parameters are universally quantified inputs of the theorems.)
    `retrained_jacobian_is_derivative`, `retrained_query_jacobian_is_derivative`.
 6. Surrogate discipline created with explicit name lists (reordered inputs, any sub-list of the outputs):
    `surrogate_selected_outputs`, `surrogate_selected_blocks`, `surrogate_selection_tiles`.
+7. Public formula switch of a trained mixture of experts (`MOERegressor.hard` assigned by the user after the
+   training, both ways, any number of times, between queries): `moe_switch_is_last_assignment`,
+   `moe_query_follows_switch_in_force`, `moe_hard_prediction_is_selected_local_model`,
+   `moe_soft_prediction_is_weighted_mean`, `moe_switched_query_jacobian_is_derivative`,
+   `moe_soft_offers_no_jacobian`.
 -/
 import GemseoVerif.Analysis.C18Rbf
 import GemseoVerif.Lemmas.C18Poly
 import GemseoVerif.Lemmas.C18Fit
 import GemseoVerif.Lemmas.C18Sess
+import GemseoVerif.Lemmas.C18Moe
 import Mathlib.Tactic.NormNum
+import Mathlib.Tactic.Positivity
+import Mathlib.Tactic.Linarith
+import Mathlib.Tactic.FieldSimp
 import Mathlib.Tactic.IntervalCases
 
 namespace GV.C18.Claims
@@ -480,5 +489,140 @@ example : concatSel [1, 2, 1] (fun i => (i : ℚ)) [1] 0 = 1 ∧
     concatSel [1, 2, 1] (fun i => (i : ℚ)) [2, 0] 0 = 3 ∧
     concatSel [1, 2, 1] (fun i => (i : ℚ)) [2, 0] 1 = 0 := by
   refine ⟨?_, ?_, ?_, ?_⟩ <;> norm_num [concatSel, offsetOf]
+
+/-! ## 7. A public switch of the trained object selects the formula (`MOERegressor.hard`)
+
+The user may assign the documented public attribute `hard` of a trained mixture of experts at any time
+(soft → hard to obtain derivatives, hard → soft, repeatedly, between queries). `MOp.setHard b` is such an
+assignment, `MOp.query x` asks `predict(x)` and `predict_jacobian(x)`. The classifier and the local models
+are arbitrary (their fits are not modelled); the local models are only required to have exact Jacobians
+(established above for linear and polynomial regressors under any pipelines). -/
+
+/-- **The switch holds the last value assigned and nothing else changes**, whatever the history. -/
+theorem moe_switch_is_last_assignment (d dout : ℕ) (m : Moe ℝ) (ops : List (MOp ℝ)) :
+    Moe.run d dout m ops = { m with hard := Moe.lastHard m.hard ops } :=
+  moe_run_eq d dout ops m
+
+/-- **Prediction and Jacobian follow the SAME value of the switch: the one in force at the query.**
+    Operation `n` of any history, if it is a query, is answered by `predict` and `predict_jacobian` of one
+    and the same state: the trained object with the last value assigned to `hard` before the query (the
+    constructor's value if there was no assignment). -/
+theorem moe_query_follows_switch_in_force (d dout : ℕ) (m : Moe ℝ) (ops : List (MOp ℝ)) (n : ℕ)
+    (hn : n < ops.length) (x : Vec ℝ) (hq : ops[n] = MOp.query x) :
+    (Moe.answers d dout m ops)[n]? =
+      some (some ((m.stateAt ops n).predict x, (m.stateAt ops n).jacobian d dout x)) ∧
+    (m.stateAt ops n).hard = Moe.lastHard m.hard (ops.take n) := by
+  refine ⟨?_, rfl⟩
+  rw [List.getElem?_eq_getElem (by rw [moe_answers_length]; exact hn)]
+  exact congrArg some (moe_query_answer d dout m ops n hn x hq)
+
+/-- **Hard formula**: the prediction is the prediction of the local model of the predicted class
+    (`predict_local_model(x, predict_class(x))`), behind the transformers of the mixture. -/
+theorem moe_hard_prediction_is_selected_local_model (m : Moe ℝ) (hh : m.hard = true) (x : Vec ℝ)
+    (hc : m.cls (pipeTransform m.tin x) < m.K) :
+    m.predict x = regPredict m.tin m.tout (m.expert (m.cls (pipeTransform m.tin x))) x := by
+  unfold Moe.predict regPredict
+  rw [moe_hard_corePredict m hh _ hc]
+
+/-- **Soft formula**: the mean of the local predictions weighted by the class probabilities. -/
+theorem moe_soft_prediction_is_weighted_mean (m : Moe ℝ) (hh : m.hard = false) (x : Vec ℝ) :
+    m.predict x = pipeInverse m.tout (fun i =>
+      sumTo m.K (fun c => m.proba (pipeTransform m.tin x) c * m.expert c (pipeTransform m.tin x) i)) := by
+  unfold Moe.predict regPredict
+  congr 1
+  funext i
+  exact moe_soft_corePredict m hh _ i
+
+/-- **After any history of assignments and queries, a query answered with the hard formula in force
+    returns a Jacobian that is the derivative of the prediction function in force** (the one that
+    answers `predict` at that moment), in every direction, at every point where the predicted class is
+    locally constant (a hard mixture is discontinuous across the class boundaries). -/
+theorem moe_switched_query_jacobian_is_derivative (d dout : ℕ) (m : Moe ℝ) (hwf : MoeWF d dout m)
+    (ops : List (MOp ℝ)) (n : ℕ) (hn : n < ops.length) (x : Vec ℝ) (hq : ops[n] = MOp.query x)
+    (hh : Moe.lastHard m.hard (ops.take n) = true)
+    (hloc : ClassLocallyConstant m (pipeTransform m.tin x)) :
+    ∃ p J, (Moe.answers d dout m ops)[n]? = some (some (p, some J)) ∧
+      p = (m.stateAt ops n).predict x ∧
+      ∀ (v : Vec ℝ) (i : ℕ), i < dout →
+        HasDerivAt (fun t : ℝ => (m.stateAt ops n).predict (fun j => x j + t * v j) i)
+          (mulVec d J v i) 0 := by
+  have hloc' : ClassLocallyConstant (m.stateAt ops n) (pipeTransform (m.stateAt ops n).tin x) := hloc
+  obtain ⟨J, hJ, _⟩ := moe_hard_jacobian_hasDerivAt d dout (m.stateAt ops n) (hwf.stateAt ops n) hh x
+    (fun _ => 0) hloc'
+  refine ⟨(m.stateAt ops n).predict x, J, ?_, rfl, ?_⟩
+  · rw [(moe_query_follows_switch_in_force d dout m ops n hn x hq).1, hJ]
+  · intro v i hi
+    obtain ⟨J', hJ', hd⟩ := moe_hard_jacobian_hasDerivAt d dout (m.stateAt ops n) (hwf.stateAt ops n)
+      hh x v hloc'
+    have : J' = J := Option.some.inj (hJ'.symm.trans hJ)
+    exact this ▸ hd i hi
+
+/-- With the soft formula in force no Jacobian is offered (`NotImplementedError`), whatever the value the
+    object was constructed with. -/
+theorem moe_soft_offers_no_jacobian (d dout : ℕ) (m : Moe ℝ) (ops : List (MOp ℝ)) (n : ℕ)
+    (hn : n < ops.length) (x : Vec ℝ) (hq : ops[n] = MOp.query x)
+    (hh : Moe.lastHard m.hard (ops.take n) = false) :
+    (Moe.answers d dout m ops)[n]? = some (some ((m.stateAt ops n).predict x, none)) := by
+  rw [(moe_query_follows_switch_in_force d dout m ops n hn x hq).1]
+  have : (m.stateAt ops n).jacobian d dout x = none := by
+    unfold Moe.jacobian
+    have h2 : (m.stateAt ops n).hard = false := hh
+    rw [h2]
+    rfl
+  rw [this]
+
+/-- Non-vacuity: one input, one output, two linear local models (`2 z + 1`, `-3 z + 5`), classes split at
+    `z = 0`, neighbours' votes `1/3 : 2/3`, constructed with the SOFT formula. -/
+noncomputable def exampleMoe : Moe ℝ :=
+  { tin := [], tout := [], K := 2
+    expert := fun c => linPredict 1 (fun _ _ => if c = 0 then 2 else -3) (fun _ => if c = 0 then 1 else 5)
+    expertJac := fun c => linJac (fun _ _ => if c = 0 then 2 else -3)
+    cls := fun z => if z 0 < 0 then 0 else 1
+    proba := fun _ c => if c = 0 then 1 / 3 else 2 / 3
+    hard := false }
+
+/-- queried (soft), switched to hard, queried, switched back, queried -/
+noncomputable def exampleSwitches : List (MOp ℝ) :=
+  [MOp.query (fun _ => 1), MOp.setHard true, MOp.query (fun _ => 1), MOp.setHard false,
+   MOp.query (fun _ => 1)]
+
+example : MoeWF 1 1 exampleMoe := by
+  refine ⟨trivial, trivial, ?_, ?_, ?_⟩
+  · intro u v h
+    have h0 : u 0 = v 0 := h 0 (by decide)
+    simp [exampleMoe, h0]
+  · intro z
+    show (if z 0 < 0 then 0 else 1) < 2
+    split <;> decide
+  · intro c _
+    exact linreg_jac 1 1 _ _
+
+example : ClassLocallyConstant exampleMoe (fun _ => 1) := by
+  intro w
+  have hpos : 0 < 1 + |w 0| := by positivity
+  refine ⟨1 / (1 + |w 0|), by positivity, fun t ht => ?_⟩
+  have h1 : |t * w 0| < 1 := by
+    rw [abs_mul]
+    calc |t| * |w 0| ≤ |t| * (1 + |w 0|) := by nlinarith [abs_nonneg t, abs_nonneg (w 0)]
+      _ < 1 / (1 + |w 0|) * (1 + |w 0|) := mul_lt_mul_of_pos_right ht hpos
+      _ = 1 := by field_simp
+  have h2 : ¬ ((1 : ℝ) + t * w 0 < 0) := by
+    have := (abs_lt.mp h1).1
+    intro h
+    linarith
+  have h3 : ¬ ((1 : ℝ) < 0) := by norm_num
+  simp [exampleMoe, h2, h3]
+
+example : Moe.lastHard exampleMoe.hard (exampleSwitches.take 0) = false ∧
+    Moe.lastHard exampleMoe.hard (exampleSwitches.take 2) = true ∧
+    Moe.lastHard exampleMoe.hard (exampleSwitches.take 4) = false := ⟨rfl, rfl, rfl⟩
+
+/-- …and the switch matters there: the soft prediction at `x = 1` is `(1/3)·3 + (2/3)·2 = 7/3`, the hard
+    one is the second local model's `2`. -/
+example : exampleMoe.predict (fun _ => 1) 0 = 7 / 3 ∧
+    ({ exampleMoe with hard := true } : Moe ℝ).predict (fun _ => 1) 0 = 2 := by
+  constructor <;>
+    norm_num [Moe.predict, regPredict, pipeInverse, pipeTransform, Moe.corePredict, Moe.weights, exampleMoe,
+      sumTo, linPredict]
 
 end GV.C18.Claims
